@@ -514,7 +514,9 @@ func TestVerif_C03_Proc(t *testing.T) {
 		case 5:
 			// stop while the local queue's producer is about to write a batch of outlinks and seeds are still in flight
 			// (slow site): the writer sees its context cancelled in the middle of its transaction
-			d.Workers, d.Seeds, d.Assets, d.Links, d.DelayMs = 1, 6, 2, 3, 400
+			// (slow enough that seeds are still in flight when the writer's first batch is due, 5 s after the first outlink, and
+			// for the 3 s the writer is then held: the crawl would take half a minute)
+			d.Workers, d.Seeds, d.Assets, d.Links, d.DelayMs = 1, 12, 2, 3, 800
 			d.Moment, d.Point, d.K, d.HoldMs = "hook", "lq.producer.beforeAdd", 1, 3000
 		case 4:
 			// stop while an outlink page is being fetched: more outlinks wait in the local queue than there are tokens
